@@ -69,8 +69,12 @@ Effective(e) == ~Has(e, "effective") \/ e.effective    \* a commit that is neith
 
 ---------------------------------------------------------------------------
 (* events of one session *)
+PropOf(st) == IF "prop" \in DOMAIN st.expect THEN st.expect.prop ELSE IOEnv.PROP
 ReqViol(st, e, staged1) ==
   LET k == e.kind IN
+  (* whatever names and expressions the configuration holds, a request of the agent is well-formed XML *)
+  (IF k = "unparseable" THEN {V(PropOf(st), "RequestOfTheAgentIsNotWellFormedXml", "", e)} ELSE {})
+  \cup
   (IF k = "open" /\ e.instance # st.instance THEN {V("C02", "WrongInstanceOpened", e.instance, e)} ELSE {})
   \cup
   (IF k = "commit" /\ ~st.openAcked THEN {V("C04", "CommitWithoutOpenDatabase", "", e)} ELSE {})
@@ -249,7 +253,6 @@ Step(st, e) ==
     [] e.ev = "run_end" -> [st EXCEPT !.prevEnd = st.eph]
     [] OTHER -> st
 
-PropOf(st) == IF "prop" \in DOMAIN st.expect THEN st.expect.prop ELSE IOEnv.PROP
 LineViol(st, st1, e) ==
   CASE e.ev = "req" -> ReqViol(st, e, st1.staged)
     [] e.ev = "exit" -> ExitViol(st, e)
